@@ -43,8 +43,11 @@ def run(ck):
     ck.cov["distinct_nontrivial"] = len(distinct)
     ck.cov["events_monitored"] = nev
     # trace validation ties the same executions to the model the theorem is about
-    res = run_schedules(ck, exe, cfg[:150 if not big else 600])
-    C03.analyse(ck, res, want=("trace",))
+    # ... and "every chunk is given to the worker that owns its position, in file order": the tagging stream objects write the
+    # worker's id and its running block count into every block, so the output equals the sequential reference exactly when the
+    # assignment is right (the long runs at the end of the list wrap narrow chunk / slot counters)
+    res = run_schedules(ck, exe, cfg[:150 if not big else 600] + cfg[-3:])
+    C03.analyse(ck, res, want=("trace", "output"))
     if big:
         tsan(ck)
     return finish_proof(ck, rule="ownership monitor attached to every explored schedule of the real pipeline (events from the guarded hooks: critical-section outcomes with the buffer state, every get_entry / cmpstate / export / load): a worker access requires READY (or INV with nothing left), an I/O access requires EMPTY/UPDATING, a worker touches only its own buffer; the same schedules are replayed on the Coq transition system; thorough tier adds ThreadSanitizer runs on real threads. distinct = distinct (T, direction, length, schedule)",
